@@ -15,6 +15,8 @@ PROPS = {
     "g1": "C01 C03 C06 C08 C09 C20", "g2": "C01 C03 C06 C08 C09 C20", "g3": "C01 C03 C08 C09", "g4": "C01 C02 C08 C09 C13", "g5": "C13 C06 C08 C09",
     "g6": "C02 C06 C08 C09", "g7": "C09 C02", "g8": "C04 C03 C20 C06", "g9": "C04 C05 C20", "g10": "C16", "g11": "C05 C20 C15", "g12": "C05 C20 C15",
     "g13": "C15", "g14": "C11 C08",
+    "f1": "C12", "f2": "C12", "f3": "C19", "f4": "C19", "f5": "C19", "f6": "C18", "f7": "C07", "f8": "C07", "f9": "C05 C15", "f10": "C15",
+    "f11": "C04 C20", "f12": "C08 C11",
 }
 
 
